@@ -2,6 +2,9 @@ SPECIFICATION Spec
 CONSTANTS
   Shapes = {21, 31, 41, 51, 22}
   Variants = {0}
+  TypeCodes = {0, 1, 2, 3, 4, 5, 6}
+  ModX = 1
+  ResX = 0
   Mod = 1
   Res = 0
   MaxMissing = 1
